@@ -132,6 +132,7 @@ func runDetOnce[T comparable](c DetCase, o *vk.Obs, es *elems[T], elts []T) stri
 		lenZeroAfterHalving, halvings, exactSteps, nanResets                 int
 	)
 	for i, v := range c.Ops {
+		o.Step() // interleaved execution (vk.Interleave) switches to the other case here
 		if v < 0 {
 			buffered := ""
 			if es.nan != nil && !halved && distinctSoFar+1 < size {
